@@ -35,19 +35,19 @@ func (c08) Plan(tier string) []core.Segment {
 	}
 	return []core.Segment{
 		{Gen: "small", Profile: small, Count: gen.Size("small", small), Exhaustive: true, Desc: "all strings up to the bound over {a,LF,CR,NUL,é,SP,>,-,`}: every partition into reads, both EOF styles, every fault point", Batch: 4000},
-		{Gen: "soup", Profile: "crnul", Count: scale(tier, 60_000, 2_000_000)},
-		{Gen: "soup", Profile: "default", Count: scale(tier, 40_000, 1_500_000)},
-		{Gen: "lines", Profile: "default", Count: scale(tier, 60_000, 2_000_000)},
-		{Gen: "limits", Profile: "default", Count: scale(tier, 2_000, 50_000), Desc: "documents on numeric thresholds: 999-character labels, 9-digit list numbers, reference digit counts, scheme and domain lengths, line endings on the 8 KiB read window, indentation columns, long runs, deep nesting"},
-		{Gen: "defsplit", Profile: "default", Count: scale(tier, 30_000, 1_000_000), Desc: "definition-like paragraphs cut into lines at every place, inside containers with space/tab/partly consumed tab prefixes and hostile bytes right after the prefix"},
-		{Gen: "modeldoc", Profile: "full", Count: scale(tier, 20_000, 600_000), Desc: "Markdown of model documents: nested containers, structural tabs, laziness, multi-line inline constructs"},
-		{Gen: "modeldoc", Profile: "deep", Count: scale(tier, 2000, 60000), Desc: "Markdown of model documents: nested containers, structural tabs, laziness, multi-line inline constructs", Batch: 2000},
-		{Gen: "lines", Profile: "hostile", Count: scale(tier, 40_000, 1_500_000)},
+		{Gen: "soup", Profile: "crnul", Count: scale(tier, 60_000, 600_000)},
+		{Gen: "soup", Profile: "default", Count: scale(tier, 40_000, 500_000)},
+		{Gen: "lines", Profile: "default", Count: scale(tier, 60_000, 600_000)},
+		{Gen: "limits", Profile: "default", Count: scale(tier, 2_000, 20_000), Desc: "documents on numeric thresholds: 999-character labels, 9-digit list numbers, reference digit counts, scheme and domain lengths, line endings on the 8 KiB read window, indentation columns, long runs, deep nesting"},
+		{Gen: "defsplit", Profile: "default", Count: scale(tier, 30_000, 300_000), Desc: "definition-like paragraphs cut into lines at every place, inside containers with space/tab/partly consumed tab prefixes and hostile bytes right after the prefix"},
+		{Gen: "modeldoc", Profile: "full", Count: scale(tier, 20_000, 200_000), Desc: "Markdown of model documents: nested containers, structural tabs, laziness, multi-line inline constructs"},
+		{Gen: "modeldoc", Profile: "deep", Count: scale(tier, 2000, 20000), Desc: "Markdown of model documents: nested containers, structural tabs, laziness, multi-line inline constructs", Batch: 2000},
+		{Gen: "lines", Profile: "hostile", Count: scale(tier, 40_000, 500_000)},
 		{Gen: "spec", Count: gen.CorpusSize(), Exhaustive: true},
-		{Gen: "specmut", Count: scale(tier, 40_000, 1_500_000)},
-		{Gen: "partition13", Count: scale(tier, 2_000, 60_000), Desc: "documents of 7-13 bytes, all partitions x 2 EOF styles", Batch: 200},
+		{Gen: "specmut", Count: scale(tier, 40_000, 500_000)},
+		{Gen: "partition13", Count: scale(tier, 2_000, 20_000), Desc: "documents of 7-13 bytes, all partitions x 2 EOF styles", Batch: 200},
 		{Gen: "patho", Count: gen.PathoCount(), Exhaustive: true},
-		{Gen: "bigdoc", Count: scale(tier, 800, 20000), Desc: "8-40 KiB documents of many small blocks with NUL/CR/multi-byte bytes planted at 8 KiB multiples", Batch: 50},
+		{Gen: "bigdoc", Count: scale(tier, 800, 6000), Desc: "8-40 KiB documents of many small blocks with NUL/CR/multi-byte bytes planted at 8 KiB multiples", Batch: 50},
 		{Gen: "prose", Count: scale(tier, 10, 100), Desc: "large prose with NUL runs / CR at 8 KiB chunk edges", Batch: 1},
 	}
 }
